@@ -2,6 +2,7 @@
 # Background sweep: every claimed check at several seeds with a multiple of the quick budget.
 # usage: tools/sweep.sh "<seeds>" <multiplier> [props...]
 cd "$(dirname "$0")/.."
+mkdir -p .work
 SEEDS=${1:-"11 12 13"}; MULT=${2:-4}; shift 2 2>/dev/null
 PROPS=${*:-$(python3 -c "import json;print(' '.join(c['property_id'] for c in json.load(open('MANIFEST.json'))['checks']))")}
 for s in $SEEDS; do for p in $PROPS; do
@@ -11,6 +12,6 @@ src=open('sim/props.go').read()
 m=re.search(r'ID: "%s", Quick: (\d+)'%sys.argv[1],src); print(m.group(1) if m else 1000)
 PY
 )
-  VERIF_SEED=$s VERIF_RUNS=$((q*MULT)) VERIF_WALL_CAP=1500 ./check $p quick > .work/sweep_$p_$s.out 2>&1; rc=$?
-  echo "seed=$s prop=$p rc=$rc $(grep '^check:' .work/sweep_$p_$s.out | tail -1)"; grep -h "^VIOLATION" -A2 .work/sweep_$p_$s.out | head -12
+  VERIF_SEED=$s VERIF_RUNS=$((q*MULT)) VERIF_WALL_CAP=1500 ./check $p quick > .work/sweep_${p}_${s}.out 2>&1; rc=$?
+  echo "seed=$s prop=$p rc=$rc $(grep '^check:' .work/sweep_${p}_${s}.out | tail -1)"; grep -h "^VIOLATION" -A2 .work/sweep_${p}_${s}.out | head -12
 done; done
